@@ -20,9 +20,9 @@ SPEC = {
     "modules": ["HC.Props.C19"],
     "extracted": ["Cli", "Consts", "ConfigSites"],
     "technique": "Lean 4: `decide` over the CLI table regenerated from __main__.py + a general semantics theorem for the wiring; structural proofs for bind parsing, root_path, date arithmetic (omega) — tied by differential execution of every loader, every flag, bind shapes and sampled timestamps",
-    "level_text": "Proved in Lean: the command-line table extracted from the current __main__.py is wired one-to-one per a hand-written specification (decided exhaustively), and for ANY set of given flags the executed assignments are exactly 'application_path, then each given flag's own attribute := its own value' (cli_semantics, cli_sets_exactly, cli_pair, cli_absent_flag_is_noop); root_path is the given value minus trailing slashes; a bind given as str equals the one-element list; all loaders reduce to from_mapping: the object loaders drop exactly dunder names and imported modules - the filter clauses are extracted from Config.from_object, so a class- or function-valued setting (logger_class) is handed on like any other (from_object_filter_spec, loaders_agree, from_object_drops, from_object_callable_setting) - and one more key changes exactly its own attribute; from_mapping hands EVERY key to setattr - the statements of its loop are extracted, none skips a key - so a setting whose attribute cannot be read back (the write-only cert_reqs, the annotation-only application_path) is stored like any other, cert_reqs = n storing VerifyMode(n) under verify_mode exactly as --cert-reqs n does (from_mapping_guard_spec, cert_reqs_loaded, application_path_loaded, from_mapping_stores); the address family of an inet bind is decided by the parsed host alone - AF_INET6 iff it contains a colon, with or without brackets; the test is extracted from _create_sockets (bind_family_spec, bind_family_of_host, bind_bare_v6_unbracketed); host:port / bare host / [v6]:port / unix: / fd:// parse to the intended family, address and port for every host and port string of the stated shape; the date header is a 29-character IMF-fixdate with every field in range for every second up to year 9999; response headers are exactly date/server/alt-svc per the switches. Tie: every flag alone and in pairs through the real main(), every public key (logger_class, Logger instances and ssl enums included) through all loaders - mapping, keywords, object, class, module, module.attribute, Python file, TOML file, the command line's -c file: / -c python: / -c toml (files written to disk) and the setting's own command-line flag where the flag can spell the value; keys that cannot be read back included (cert_reqs judged on verify_mode AND on the TLS context create_ssl_context() builds, application_path); a loader that raises is a violation, not a harness error; bind strings (bracketed and unbracketed IPv6 literals, stream and datagram sockets) through the real _create_sockets (recorded bind() arguments and real sockets), timestamps against wsgiref's formatter.",
+    "level_text": "Proved in Lean: the command-line table extracted from the current __main__.py is wired one-to-one per a hand-written specification (decided exhaustively), and for ANY set of given flags the executed assignments are exactly 'application_path, then each given flag's own attribute := its own value' (cli_semantics, cli_sets_exactly, cli_pair, cli_absent_flag_is_noop); root_path is the given value minus trailing slashes; a bind given as str equals the one-element list; all loaders reduce to from_mapping: the object loaders drop exactly dunder names and imported modules - the filter clauses are extracted from Config.from_object, so a class- or function-valued setting (logger_class) is handed on like any other (from_object_filter_spec, loaders_agree, from_object_drops, from_object_callable_setting) - and one more key changes exactly its own attribute; from_mapping hands EVERY key to setattr - the statements of its loop are extracted, none skips a key - so a setting whose attribute cannot be read back (the write-only cert_reqs, the annotation-only application_path) is stored like any other, cert_reqs = n storing VerifyMode(n) under verify_mode exactly as --cert-reqs n does (from_mapping_guard_spec, cert_reqs_loaded, application_path_loaded, from_mapping_stores); the address family of an inet bind is decided by the parsed host alone - AF_INET6 iff it contains a colon, with or without brackets; the test is extracted from _create_sockets (bind_family_spec, bind_family_of_host, bind_bare_v6_unbracketed); a LIST of bind strings is parsed entry by entry - no local of the loop `for bind in binds` outlives an iteration (definite-assignment analysis of the loop body, extracted), so every entry is bound as if given alone, a bare host to port 8000 wherever it stands (create_sockets_loop_spec, create_sockets_pointwise, create_sockets_entry, bind_bare_host_in_list, bind_bare_v6_in_list); host:port / bare host / [v6]:port / unix: / fd:// parse to the intended family, address and port for every host and port string of the stated shape; the date header is a 29-character IMF-fixdate with every field in range for every second up to year 9999; response headers are exactly date/server/alt-svc per the switches. Tie: every flag alone and in pairs through the real main(), every public key (logger_class, Logger instances and ssl enums included) through all loaders - mapping, keywords, object, class, module, module.attribute, Python file, TOML file, the command line's -c file: / -c python: / -c toml (files written to disk) and the setting's own command-line flag where the flag can spell the value; keys that cannot be read back included (cert_reqs judged on verify_mode AND on the TLS context create_ssl_context() builds, application_path); a loader that raises is a violation, not a harness error; bind strings (bracketed and unbracketed IPv6 literals, stream and datagram sockets), alone and in lists, through the real _create_sockets / create_sockets (recorded bind() arguments and real sockets), timestamps against wsgiref's formatter.",
     "level_note": "Trusted: Lean kernel; extractor (argparse table and wiring recognised by shape, unknown shapes fail the tie); hand-written model HC/Pure/Config.lean; argparse, tomllib, importlib and the socket layer are runtime behaviour compared by execution only; Python int() accepts more spellings than the model's decimal parser (generator stays within decimal digits).",
-    "rule": "CLI: every wired flag alone (exhaustive) + flag pairs (quick: sample, thorough: all) with distinct random values, with/without a TOML file setting the same key; loaders: every public Config key x its value types (literals; a Logger subclass and a logger factory function for logger_class; logging.Logger instances; ssl.VerifyMode / VerifyFlags members; cert_reqs 0/1/2 and a member; application_path) x 13 loaders (an instance whose class carries the setting included), TOML / the flag only for values they can spell; binds: shape grid (host:port, bare host, [v6]:port, [v6], bare v6 without brackets, v6 without brackets that also reads as host:port, unix, fd) x hosts x ports x socket type via recorded bind() arguments, plus real sockets (incl. a real bind of `::`); dates: boundary + random timestamps. distinct = (family, flag | flag pair | (loader,key) | bind shape | date class); non-trivial = a value different from the default is supplied",
+    "rule": "CLI: every wired flag alone (exhaustive) + flag pairs (quick: sample, thorough: all) with distinct random values, with/without a TOML file setting the same key; loaders: every public Config key x its value types (literals; a Logger subclass and a logger factory function for logger_class; logging.Logger instances; ssl.VerifyMode / VerifyFlags members; cert_reqs 0/1/2 and a member; application_path) x 13 loaders (an instance whose class carries the setting included), TOML / the flag only for values they can spell; binds: shape grid (host:port, bare host, [v6]:port, [v6], bare v6 without brackets, v6 without brackets that also reads as host:port, unix, fd) x hosts x ports x socket type via recorded bind() arguments, plus real sockets (incl. a real bind of `::`); bind LISTS: every ordered pair of the eight shapes, a unix / fd entry between an entry with and one without a port, random lists of 3-6 entries (stream and datagram), and bind + insecure_bind + quic_bind together through Config.create_sockets() - each socket judged against the intention of its own entry; dates: boundary + random timestamps. distinct = (family, flag | flag pair | (loader,key) | bind shape | date class); non-trivial = a value different from the default is supplied",
     "trusted": ["argparse / tomllib / importlib / socket behaviour (compared by execution, not modelled)"],
     "partial": ["bind_host_port excludes the host spelled `unix` (`unix:80` is a unix-socket path by design of the syntax)",
                 "bare bracketed IPv6 without a port is outside the proved shapes; see known finding F22 if listed",
@@ -664,23 +664,28 @@ def gen_binds(ctx: Ctx) -> List[dict]:
     return out
 
 
-def _record_bind(bind: str, type_: int = socket.SOCK_STREAM):
-    """Run the real `_create_sockets` with a recording socket class: returns what it asked the OS for."""
+def _record_binds(binds: List[str], type_: int = socket.SOCK_STREAM, call=None) -> List[Dict[str, Any]]:
+    """Run the real `_create_sockets` (or `call(config)`) with a recording socket class: what it asked the OS for, one record
+    per socket, in the order of creation."""
     import hypercorn.config as hc
-    rec: Dict[str, Any] = {}
+    recs: List[Dict[str, Any]] = []
 
     class RecSock:
         def __init__(self, family=-1, type=-1, proto=-1, fileno=None):
-            rec["family"], rec["type"], rec["fileno"] = family, type, fileno
+            self.rec: Dict[str, Any] = {"family": family, "type": type, "fileno": fileno}
+            recs.append(self.rec)
 
         def setsockopt(self, *a):
             pass
 
         def getsockopt(self, *a):
-            return socket.SOCK_STREAM
+            return self.rec["type"] if self.rec["fileno"] is None else self.rec.get("fd_type", type_)
 
         def bind(self, addr):
-            rec["bind"] = addr
+            self.rec["bind"] = addr
+
+        def getsockname(self):
+            return self.rec.get("bind", ("0.0.0.0", 0))
 
         def setblocking(self, f):
             pass
@@ -697,10 +702,47 @@ def _record_bind(bind: str, type_: int = socket.SOCK_STREAM):
     orig = hc.socket
     hc.socket = fake
     try:
-        hc.Config()._create_sockets([bind], type_)
+        if call is not None:
+            out = call(hc.Config())
+            for name in ("secure_sockets", "insecure_sockets", "quic_sockets"):
+                for sk in getattr(out, name):
+                    sk.rec["returned_in"] = name
+        else:
+            out = hc.Config()._create_sockets(binds, type_)
+            for i, sk in enumerate(out):
+                sk.rec["returned_at"] = i
     finally:
         hc.socket = orig
-    return rec
+    return recs
+
+
+def _record_bind(bind: str, type_: int = socket.SOCK_STREAM):
+    recs = _record_binds([bind], type_)
+    return recs[0] if recs else {}
+
+
+def _intended(shape: str, b: str, o: Dict[str, Any]):
+    """monitor: intended (family, address) of ONE bind string, by its shape (independent of the model)"""
+    if shape == "host:port":
+        h, p = b.rsplit(":", 1)
+        return (socket.AF_INET, (h, int(p)))
+    if shape == "bare":
+        return (socket.AF_INET, (b, 8000))
+    if shape == "[v6]:port":
+        h, p = b[1:].split("]:")
+        return (socket.AF_INET6, (h, int(p)))
+    if shape == "[v6]":
+        return (socket.AF_INET6, (b[1:-1], 8000))
+    if shape == "bare-v6":
+        return (socket.AF_INET6, (b, 8000))
+    if shape == "bare-v6/host:port":
+        h, p = b.rsplit(":", 1)
+        if o.get("bind") == (b, 8000):
+            return (socket.AF_INET6, (b, 8000))          # the bare-host reading of the same string
+        return (socket.AF_INET6, (h, int(p)))
+    if shape == "fd":
+        return (-1, None)                                # the socket is taken over as it is: nothing is bound
+    return (socket.AF_UNIX, b[5:])
 
 
 def check_binds(ctx: Ctx, cases: List[dict]) -> None:
@@ -728,25 +770,7 @@ def check_binds(ctx: Ctx, cases: List[dict]) -> None:
             continue
         b = c["bind"]
         # monitor: intended family / address / port, by shape (independent of the model)
-        if c["shape"] == "host:port":
-            h, p = b.rsplit(":", 1)
-            want = (socket.AF_INET, (h, int(p)))
-        elif c["shape"] == "bare":
-            want = (socket.AF_INET, (b, 8000))
-        elif c["shape"] == "[v6]:port":
-            h, p = b[1:].split("]:")
-            want = (socket.AF_INET6, (h, int(p)))
-        elif c["shape"] == "[v6]":
-            want = (socket.AF_INET6, (b[1:-1], 8000))
-        elif c["shape"] == "bare-v6":
-            want = (socket.AF_INET6, (b, 8000))
-        elif c["shape"] == "bare-v6/host:port":
-            h, p = b.rsplit(":", 1)
-            want = (socket.AF_INET6, (h, int(p)))
-            if o.get("bind") == (b, 8000):
-                want = (socket.AF_INET6, (b, 8000))          # the bare-host reading of the same string
-        else:
-            want = (socket.AF_UNIX, b[5:])
+        want = _intended(c["shape"], b, o)
         want_type = socket.SOCK_DGRAM if c.get("type") == "dgram" else socket.SOCK_STREAM
         if (o.get("family"), o.get("bind")) != want or o.get("type") != want_type:
             ctx.violation("bind_parse", c, {"got": [int(o.get("family", -1)), o.get("bind"), int(o.get("type", -1))], "want": [int(want[0]), want[1], int(want_type)]},
@@ -765,6 +789,152 @@ def check_binds(ctx: Ctx, cases: List[dict]) -> None:
                 mm = None
             if mm != (o.get("family"), o.get("bind")):
                 ctx.disagree("c19.bind", c, m, [int(o.get("family", -1)), o.get("bind")])
+
+
+# ---- lists of bind strings: `bind` / `insecure_bind` / `quic_bind` are lists, parsed by ONE loop; every entry must produce the
+#      socket it produces alone, whatever stands in front of it (a local or an attribute that survives an iteration is invisible
+#      to any single bind string and to any list whose port-less entries come first)
+LIST_SHAPES = ["host:port", "bare", "[v6]:port", "[v6]", "bare-v6", "bare-v6/host:port", "unix", "fd"]
+
+
+def _entry(rng, shape: str, k: int) -> str:
+    """one bind string of the shape; `k` makes hosts / ports of one list pairwise different (a mixed-up entry is identifiable)"""
+    port = rng.choice([rng.randint(1, 7999), rng.randint(8001, 65535)])
+    if shape == "host:port":
+        return f"{rng.choice(['127.0.0.%d' % (k + 1), 'h%d.example' % k, 'localhost'])}:{port}"
+    if shape == "bare":
+        return rng.choice(["127.0.1.%d" % (k + 1), "b%d.example" % k, "x%d" % k])
+    if shape == "[v6]:port":
+        return f"[{rng.choice(['::%x' % (k + 1), 'fe80::%x' % (k + 1), '::'])}]:{port}"
+    if shape == "[v6]":
+        return f"[{rng.choice(['::%x' % (k + 1), '2001:db8::%x' % (k + 1)])}]"
+    if shape == "bare-v6":
+        return rng.choice(["fe80::a%x" % k, "2001:db8::b%x" % k, "%x::" % (k + 1)])
+    if shape == "bare-v6/host:port":
+        return rng.choice(["fe80::%d" % (k + 1), "::ffff:c000:%d" % (200 + k)])
+    if shape == "unix":
+        return f"unix:/nonexistent-c19/{k}.sock"
+    return f"fd://{3 + k}"
+
+
+def gen_bind_lists(ctx: Ctx) -> List[dict]:
+    rng = ctx.rng
+    out: List[dict] = []
+
+    def lst(shapes: List[str], type_: str, setting: str = "bind") -> dict:
+        return {"setting": setting, "type": type_, "shapes": list(shapes), "binds": [_entry(rng, sh, k) for k, sh in enumerate(shapes)]}
+
+    # every ordered pair of shapes (exhaustive), stream; datagram for the pairs of inet shapes
+    for a in LIST_SHAPES:
+        for b in LIST_SHAPES:
+            out.append({"family": "binds", "via": "_create_sockets", "lists": [lst([a, b], "stream")]})
+            if "unix" not in (a, b) and (ctx.tier == "thorough" or rng.random() < 0.4):
+                out.append({"family": "binds", "via": "_create_sockets", "lists": [lst([a, b], "dgram", "quic_bind")]})
+    # something that is no inet bind between an entry that names a port and one that does not, and longer lists
+    for mid in ("unix", "fd"):
+        for a in ("host:port", "[v6]:port"):
+            for b in ("bare", "[v6]", "bare-v6"):
+                out.append({"family": "binds", "via": "_create_sockets", "lists": [lst([a, mid, b], "stream")]})
+    for _ in range(ctx.budget(40, 2000)):
+        shapes = [rng.choice(LIST_SHAPES) for _ in range(rng.randint(3, 6))]
+        type_ = rng.choice(["stream", "stream", "dgram"])
+        out.append({"family": "binds", "via": "_create_sockets", "lists": [lst(shapes, type_, "quic_bind" if type_ == "dgram" else "bind")]})
+    # the three settings together through `Config.create_sockets()` (TLS configured: bind -> secure, insecure_bind, quic_bind)
+    for _ in range(ctx.budget(24, 600)):
+        ls = []
+        for setting, type_ in (("bind", "stream"), ("insecure_bind", "stream"), ("quic_bind", "dgram")):
+            shapes = [rng.choice([x for x in LIST_SHAPES if x != "fd" and (type_ == "stream" or x != "unix")]) for _ in range(rng.randint(1, 3))]
+            ls.append(lst(shapes, type_, setting))
+        out.append({"family": "binds", "via": "create_sockets", "lists": ls})
+    return out
+
+
+def check_bind_lists(ctx: Ctx, cases: List[dict]) -> None:
+    obs = []
+    for c in cases:
+        try:
+            if c["via"] == "create_sockets":
+                def call(cfg, c=c):
+                    cfg.certfile, cfg.keyfile = "cert.pem", "key.pem"
+                    for l in c["lists"]:
+                        setattr(cfg, l["setting"], list(l["binds"]))
+                    return cfg.create_sockets()
+                with warnings.catch_warnings():
+                    warnings.simplefilter("ignore")
+                    obs.append(_record_binds([], call=call))
+            else:
+                l = c["lists"][0]
+                obs.append(_record_binds(list(l["binds"]), socket.SOCK_DGRAM if l["type"] == "dgram" else socket.SOCK_STREAM))
+        except Exception as e:
+            obs.append(repr(e))
+    model = ctx.model([{"cmd": "c19.binds", "binds": l["binds"]} for c in cases for l in c["lists"]])
+    mi = 0
+    for c, o in zip(cases, obs):
+        ctx.evaluations += 1
+        n = sum(len(l["binds"]) for l in c["lists"])
+        ctx.count("binds.via", c["via"])
+        ctx.count("binds.entries", n)
+        for l in c["lists"]:
+            ctx.distinct(["binds", c["via"], l["setting"], l["type"], "+".join(l["shapes"][:3])])
+            for a, b in zip(l["shapes"], l["shapes"][1:]):
+                ctx.count("binds.adjacent", f"{a} , {b}")
+        ctx.sample(c, cap=4)
+        sig = {"family": "binds", "via": c["via"]}
+        if isinstance(o, str):
+            ctx.violation("bind_rejected", c, {"error": o}, sig)
+            mi += len(c["lists"])
+            continue
+        if len(o) != n:
+            ctx.violation("bind_list_sockets", c, {"sockets": len(o), "entries": n}, sig)
+            mi += len(c["lists"])
+            continue
+        at = 0
+        for li, l in enumerate(c["lists"]):
+            want_type = socket.SOCK_DGRAM if l["type"] == "dgram" else socket.SOCK_STREAM
+            where = {"bind": "secure_sockets", "insecure_bind": "insecure_sockets", "quic_bind": "quic_sockets"}[l["setting"]]
+            m = None
+            if model is not None:
+                m = model[mi].get("ok")
+            mi += 1
+            for i, (b, sh) in enumerate(zip(l["binds"], l["shapes"])):
+                r = o[at]
+                at += 1
+                want = _intended(sh, b, r)
+                got = (r.get("family"), r.get("bind"))
+                bad = got != want or (sh != "fd" and r.get("type") != want_type)
+                if c["via"] == "create_sockets":
+                    bad = bad or r.get("returned_in") != where
+                else:
+                    bad = bad or r.get("returned_at") != i or (sh == "fd" and r.get("fileno") != int(b[5:]))
+                if bad:
+                    # the same string alone: is it the position in the list that matters?
+                    try:
+                        alone = _record_bind(b, want_type)
+                        alone = [int(alone.get("family", -1)), alone.get("bind")]
+                    except Exception as e:
+                        alone = repr(e)
+                    ctx.violation("bind_list_entry", c,
+                                  {"setting": l["setting"], "index": i, "entry": b, "shape": sh, "in_front": l["binds"][:i],
+                                   "got": [int(r.get("family", -1)), r.get("bind"), int(r.get("type", -1)), r.get("returned_in", r.get("returned_at"))],
+                                   "want": [int(want[0]), want[1], int(want_type)], "alone": alone},
+                                  dict(sig, shape=sh, after="+".join(sorted(set(l["shapes"][:i]))) or "-"))
+                if isinstance(r.get("bind"), tuple) and (r.get("family") == socket.AF_INET6) != (":" in r["bind"][0]):
+                    ctx.violation("bind_family", c, {"index": i, "entry": b, "family": int(r.get("family", -1)), "bound": r.get("bind")}, dict(sig, shape=sh))
+                if m is not None:
+                    ctx.disagreements_checked += 1
+                    e = m[i] if i < len(m) else {}
+                    if e.get("kind") == "unix":
+                        mm = (socket.AF_UNIX, e["path"])
+                    elif e.get("kind") == "inet":
+                        mm = (socket.AF_INET6 if e["v6"] else socket.AF_INET, (e["host"], e["port"]))
+                    elif e.get("kind") == "fd":
+                        mm = (-1, None)
+                        if e.get("fd") != r.get("fileno"):
+                            mm = None
+                    else:
+                        mm = None
+                    if mm != got:
+                        ctx.disagree("c19.binds", dict(c, index=i, entry=b), e, [int(r.get("family", -1)), r.get("bind")])
 
 
 def check_real_sockets(ctx: Ctx) -> None:
@@ -901,6 +1071,7 @@ def run(ctx: Ctx) -> None:
     check_cli(ctx)
     check_loaders(ctx)
     check_binds(ctx, gen_binds(ctx))
+    check_bind_lists(ctx, gen_bind_lists(ctx))
     check_real_sockets(ctx)
     check_dates(ctx)
     check_headers(ctx)
@@ -910,6 +1081,8 @@ def replay(ctx: Ctx, case: dict) -> None:
     fam = case.get("family")
     if fam == "bind":
         check_binds(ctx, [case])
+    elif fam == "binds":
+        check_bind_lists(ctx, [case])
     elif fam == "date":
         from wsgiref.handlers import format_date_time
         s = format_date_time(case["t"])
